@@ -1,7 +1,30 @@
 import Chain33Model.Model.C18
+import Chain33Model.Proofs.C18
 /-!
 C18 — Transaction root is consistent, provable and binding.  Property theorems only.
+`β` is any hash domain, `nil` the value Go returns for "no hash", `H2` any two-to-one function
+(`GetHashFromTwoHash`); nothing is assumed about them.
 -/
 namespace C18
+
+variable {β : Type}
+
+/-- The chunked parallel root (`GetMerkleRoot` with `runtime.NumCPU() = ncpu`) is the sequential
+root (`getMerkleRoot`), for every list — every transaction count — and every worker count. -/
+theorem parallel_eq_seq (nil : β) (H2 : β → β → β) (xs : List β) (ncpu : Nat) :
+    GetMerkleRoot nil H2 ncpu xs = getMerkleRoot nil H2 xs := by
+  unfold GetMerkleRoot
+  split
+  · rfl
+  · next h =>
+    have hn : 80 < xs.length := by omega
+    obtain ⟨k, hk, hstep, hle⟩ := stepOf_spec xs.length ncpu hn
+    simp only [hstep]
+    rw [chunkRoots_eq nil H2 k hk xs.length xs (Nat.le_refl _)]
+    exact (root_iterPair nil H2 k xs hle).symm
+
+/-- non-vacuity: the chunked branch is really taken (81 leaves, 4 workers: chunks of 16 and a
+last chunk of one leaf that goes through `getMerkleRootPad`). -/
+example : ¬ ((List.range 81).length ≤ 80 ∨ 4 ≤ 1) ∧ stepOf 81 4 = 16 ∧ 81 % 16 = 1 := by decide
 
 end C18
